@@ -8,7 +8,7 @@
     For transactions that do read their own writes the code — and therefore the
     faithful model — violates the property: [C13_F21_refuted] is the witness of
     known finding F21 (known_findings.json). *)
-From Verif Require Import Bytes BytesFacts Codec Dec DecFacts ListDS SetDS ZSetDS Index Engine Spec TxFacts ReplayFacts.
+From Verif Require Import Bytes BytesFacts Codec Dec DecFacts ListDS SetDS ZSetDS Index Engine Spec TxFacts ReplayFacts ApplyFacts KVRefine.
 Open Scope N_scope.
 
 (** the records of a transaction are applied in the order of its calls, and the
@@ -30,6 +30,36 @@ Theorem C13_count_value_roundtrip : forall count v,
   split_first (join_sep (print_Z count) v) = Some (print_Z count, v) /\ parse_Z (print_Z count) = count.
 Proof. intros; split; [apply split_first_join, print_Z_no_sep | apply parse_print_Z]. Qed.
 Print Assumptions C13_count_value_roundtrip.
+
+(** every mutating list / set / sorted-set call, validated against indexes that
+    coincide with the serial (L0) state: same return value — in particular the
+    value returned by LPop, RPop, SPop, ZPopMax, ZPopMin is the element the
+    logged record removes — and the records it logs, applied at Commit
+    (strict = false) or replayed at Open (strict = true), take the indexes to
+    the state the serial execution reaches.  A call that fails logs nothing.
+    [list_keys_ok]/[set_keys_ok] are invariants of reachable states
+    (ApplyFacts.do_op_rec_ok, apply_ds_keys_ok, apply_ds_set_keys_ok). *)
+Theorem C13_structure_call_is_serial : forall now w t o s,
+  dsrel (w_ix w) s -> list_keys_ok (w_ix w) -> set_keys_ok (w_ix w) ->
+  tx_w t = true -> is_ds_write o = true ->
+  let r := do_op now w t o in
+  let t' := snd (fst r) in
+  snd r = snd (spec_write s o) /\
+  exists es, tx_pend t' = tx_pend t ++ es /\
+             (forall strict, dsrel (fold_left (apply_ds strict) es (w_ix w)) (fst (spec_write s o))) /\
+             (is_fail (snd r) = true -> es = [] /\ fst (spec_write s o) = s).
+Proof. exact ds_write_refines_corrected. Qed.
+Print Assumptions C13_structure_call_is_serial.
+
+(** key/value: Put / Delete log exactly the specification's write, and Commit
+    takes the index to the specification state after all of the transaction's writes *)
+Theorem C13_kv_commit_is_serial : forall w s t,
+  kvrel w s ->
+  Forall (kv_entry_ok (tx_id t)) (tx_pend t) ->
+  snd (do_commit None w t) = true ->
+  kvrel (fst (do_commit None w t)) (fold_left spec_apply_kv (tx_pend t) s).
+Proof. exact commit_kvrel. Qed.
+Print Assumptions C13_kv_commit_is_serial.
 
 (** known finding F21: LPop twice in one transaction returns the same element
     twice (and Commit removes two elements); the serial specification returns
